@@ -761,6 +761,180 @@ def _fallback_build(ctx):
     return True
 
 
+# ============================================================================ statefulness: one long-lived Request
+READS = ["host_port", "host_url", "host", "domain", "application_url", "path_url", "path", "path_qs", "url",
+         "script_name", "path_info", "peek"]
+HIST_REFS = ["g", "../x?y", "", "/abs", "?q", "./", "//o/p", "a/./b/../c#f"]
+
+
+def _read(req, name):
+    if name == "peek":
+        return catchv(req.path_info_peek)
+    if isinstance(name, list):          # ["rel", other, to_application]
+        return catchv(lambda: req.relative_url(name[1], to_application=name[2]))
+    return catchv(lambda: getattr(req, name))
+
+
+def _observe_all(req):
+    return [_read(req, n) for n in READS] + [_read(req, ["rel", "g/../h?x", False]), _read(req, ["rel", "y", True])]
+
+
+def _public(env):
+    """the environ without webob's private cache keys: what a fresh Request is built over"""
+    return {k: v for k, v in env.items() if not k.startswith("webob._") and k != "webob.adhoc_attrs"}
+
+
+def gen_history(rng, maxops=10):
+    case = gen_case(rng, schemes=SCHEMES_WSGI * 4 + ["ws", "ftp"])
+    ops = []
+    for _ in range(rng.randrange(3, maxops + 1)):
+        x = rng.random()
+        if x < 0.34:
+            if rng.random() < 0.25:
+                ops.append(["read", ["rel", rng.choice(HIST_REFS), rng.random() < 0.4]])
+            else:
+                ops.append(["read", rng.choice(READS)])
+        elif x < 0.62:
+            key = rng.choice(["HTTP_HOST", "HTTP_HOST", "wsgi.url_scheme", "SERVER_NAME", "SERVER_PORT", "SCRIPT_NAME",
+                              "PATH_INFO", "QUERY_STRING"])
+            if key == "HTTP_HOST":
+                val = host_text(gen_host(rng)) if rng.random() < 0.8 else None
+            elif key == "wsgi.url_scheme":
+                val = rng.choice(["http", "https", "https", "ws"])
+            elif key == "SERVER_NAME":
+                val = rng.choice(NAMES)
+            elif key == "SERVER_PORT":
+                val = rng.choice(["80", "443", "8080", "81"])
+            elif key == "QUERY_STRING":
+                val = rng.choice(QUERIES)
+            else:
+                t = gen_text(rng, "latin-1" if rng.random() < 0.3 else "UTF-8", 5)
+                if t and not t.startswith("/"):
+                    t = "/" + t
+                val = wsgi(t, "latin-1" if all(ord(c) < 256 for c in t) and rng.random() < 0.3 else "UTF-8")
+                if key == "SCRIPT_NAME" and rng.random() < 0.15:
+                    val = None
+            ops.append(["env", key, val])
+        elif x < 0.74:
+            t = gen_text(rng, "latin-1", 5)
+            ops.append(["set", rng.choice(["path_info", "script_name"]), "/" + t if rng.random() < 0.8 else t])
+        elif x < 0.90:
+            ops.append(["pop", rng.choice(POP_PATTERNS)])
+        else:
+            ops.append(["enc", rng.choice(["instance", "class", "environ"]), rng.choice(["UTF-8", "latin-1", "utf-8", None])])
+    case["ops"] = ops
+    case["history"] = True
+    return case
+
+
+def run_history(case, on_step=None):
+    """ONE Request object (of a subclass made for this history) lives through reads, environ edits, assignments,
+    pops and url_encoding changes.  After every step every URL property read on it must equal what a brand-new
+    request of the same class over the current environ answers, and reads must not change the environ."""
+    from webob import Request
+    cls = type("HistoryRequest", (Request,), {})
+    env = make_env(case)
+    r = cls(env)
+
+    def fresh():
+        f = cls(dict(_public(env)))
+        if "url_encoding" in r.__dict__:
+            # url_encoding assigned on the instance while the subclass shadows the descriptor: that is
+            # configuration of the object, so the identically configured fresh object carries it too
+            object.__setattr__(f, "url_encoding", r.__dict__["url_encoding"])
+        return f
+    for i, op in enumerate(case["ops"]):
+        kind = op[0]
+        if kind == "read":
+            before = dict(_public(env))
+            got = _read(r, op[1])
+            want = _read(fresh(), op[1])
+            if got != want:
+                return "stateful:read-differs-from-fresh", "step %d %r on the long-lived request gives %r, a fresh " \
+                    "request over the same environ gives %r" % (i, op, got, want)
+            if _public(env) != before:
+                return "stateful:read-changes-environ", "step %d %r changed the environ: %r -> %r" % (
+                    i, op, before, _public(env))
+        elif kind == "env":
+            if op[2] is None:
+                env.pop(op[1], None)
+            else:
+                env[op[1]] = op[2]
+        elif kind == "set":
+            catchv(lambda: setattr(r, op[1], op[2]))
+        elif kind == "pop":
+            catchv(lambda: r.path_info_pop(op[1]) if op[1] is not None else r.path_info_pop())
+        elif kind == "enc":
+            where, val = op[1], op[2]
+            if where == "instance":
+                catchv(lambda: setattr(r, "url_encoding", val))          # None deletes the environ key
+            elif where == "environ":
+                if val is None:
+                    env.pop("webob.url_encoding", None)
+                else:
+                    env["webob.url_encoding"] = val
+            else:
+                if val is None:
+                    if "url_encoding" in cls.__dict__:
+                        del cls.url_encoding
+                else:
+                    cls.url_encoding = val                                # shadows the descriptor for this subclass
+        if r.environ is not env:
+            return "stateful:environ-replaced", "step %d %r: the request no longer wraps the environ it was given" % (i, op)
+        before = dict(_public(env))
+        got = _observe_all(r)
+        if _public(env) != before:
+            return "stateful:read-changes-environ", "after step %d %r reading the URL properties changed the " \
+                "environ: %r -> %r" % (i, op, before, _public(env))
+        want = _observe_all(fresh())
+        if got != want:
+            j = [k for k in range(len(got)) if got[k] != want[k]][0]
+            name = (READS + ["relative_url('g/../h?x')", "relative_url('y', to_application=True)"])[j]
+            return "stateful:read-differs-from-fresh", "after step %d %r: %s on the long-lived request is %r, a fresh " \
+                "request over the same environ gives %r" % (i, op, name, got[j], want[j])
+        if on_step:
+            on_step(env, r, got)
+    return None
+
+
+def oracle_history(case):
+    return run_history(case)
+
+
+def _order_obs(c):
+    from webob import Request
+    r = Request(make_env(c))
+    obs = _observe_all(r)
+    u = obs[READS.index("url")]
+    if isinstance(u, str):
+        enc = c.get("enc", "UTF-8")
+        obs.append(catchv(lambda: impl_blank(u)))
+        obs.append(catchv(lambda: Request.blank(u, environ={"webob.url_encoding": enc}).path_qs))
+    return obs
+
+
+def oracle_orders(case):
+    """Module-level state: related inputs evaluated one after the other, in several orders, within one process.
+    Each must satisfy the (stateless) statement whatever was evaluated before it, and answer the same in every
+    order.  The whole sequence is the replayable case."""
+    batch = case["batch"]
+    base = []
+    order = list(range(len(batch)))
+    for perm in [order] + case["perms"] + [order]:
+        for pos, k in enumerate(perm):
+            res = oracle_url(batch[k])
+            if res:
+                return "stateful:sequence:" + res[0], "input #%d %r, evaluated after %s in one process: %s" % (
+                    k, batch[k], perm[:pos], res[1])
+            got = _order_obs(batch[k])
+            if len(base) <= k and perm is order:
+                base.append(got)
+            elif got != base[k]:
+                return "stateful:order-dependent", "input #%d %r answers %r when evaluated after inputs %s, but %r in " \
+                    "the original order" % (k, batch[k], got, perm[:pos], base[k])
+    return None
+
+
 # ============================================================================ the check
 def guarded(oracle):
     """An exception escaping an oracle is the implementation raising where the statement expects a value."""
@@ -784,6 +958,7 @@ def run(ctx):
         ctx.broken.append("tie to the source: " + p)
     if not ctx.build(["Props/C13.vo"]):
         _fallback_build(ctx)
+    run_orders_oracle(ctx)
     import webob.request as wr
 
     # ------------------------------------------------------------------ correspondence
@@ -842,6 +1017,31 @@ def run(ctx):
     bad = ctx.corr("pops", IMPORTS, "obs_pops", cases, in_type="(environ * list pop_op)")
     _report_bad(ctx, "pops", bad, cases, None)
 
+    # histories: the long-lived request's answers after every step = the model on the environ as it is then
+    cases = []
+    hrng = ctx.sub_rng("corr-history")
+    while len(cases) < ctx.scale(500, 5000):
+        hist = gen_history(hrng)
+        steps = []
+
+        def snap(env, r, got, steps=steps):
+            e = dict(_public(env))
+            eff = catchv(lambda: r.url_encoding)
+            if not isinstance(eff, str) or eff.lower().replace("_", "-") not in ("utf-8", "utf8", "latin-1"):
+                return
+            e["webob.url_encoding"] = eff
+            steps.append((e, got[:READS.index("script_name")]))
+        try:
+            res = run_history(hist, snap)
+        except Exception as ex:  # noqa
+            res = ("raises:" + type(ex).__name__, "run_history raises %s" % ex)
+        if res:
+            ctx.fail(res[0], res[1], hist, True, "corr")
+        for k, (e, got) in enumerate(steps):
+            cases.append((cenv(e), got, {"kind": "env", "environ": e, "from_history": hist, "step": k}))
+    bad = ctx.corr("urls-history", IMPORTS, "obs_urls", cases, in_type="environ")
+    _report_bad(ctx, "urls-history", bad, cases, lambda c: oracle_history(c["from_history"]))
+
     # urlsplit and environ_from_url on URL texts
     for name, impl, fn in (("urlsplit", impl_split, "obs_split"), ("environ_from_url", impl_blank, "obs_blank")):
         cases = []
@@ -862,6 +1062,7 @@ def run(ctx):
 
     # ------------------------------------------------------------------ oracle
     run_oracle(ctx)
+    run_stateful_oracle(ctx)
     ctx.extra["rule"] = (
         "correspondence: distinct generated inputs per model function (all 256 octets + random byte strings for "
         "url_quote; well-formed %XX texts for url_unquote; environs built from scheme x Host spelling (name, "
@@ -1046,12 +1247,97 @@ def run_oracle(ctx):
     ctx.oracle_count("relative_url", n, n)
 
 
+def gen_related_batch(rng):
+    """A base case and variants that differ from it in one or two coordinates only (encoding, scheme, host,
+    port, query, the SCRIPT_NAME/PATH_INFO split): inputs that a cache keyed on too little would confuse."""
+    base = gen_case(rng, schemes=SCHEMES_WSGI, enc="latin-1")      # latin-1 text is valid under both encodings
+    base["script"] = base["script"] or ""
+    batch = [base]
+    for _ in range(7):
+        c = json.loads(json.dumps(rng.choice(batch)))
+        for _ in range(rng.choice([1, 1, 2])):
+            dim = rng.choice(["enc", "scheme", "host", "port", "qs", "split", "server"])
+            if dim == "enc":
+                c["enc"] = "UTF-8" if c["enc"] != "UTF-8" else "latin-1"
+            elif dim == "scheme":
+                c["scheme"] = rng.choice(["http", "https"])
+            elif dim == "host":
+                c["host"] = gen_host(rng) if rng.random() < 0.8 else None
+            elif dim == "port" and c["host"] is not None:
+                c["host"]["port"] = rng.choice(PORTS)
+            elif dim == "qs":
+                c["qs"] = rng.choice(QUERIES)
+            elif dim == "server":
+                c["server"] = [rng.choice(NAMES), rng.choice(["80", "443", "8080"])]
+            else:
+                t = c["script"] + c["path"]
+                k = rng.randrange(len(t) + 1)
+                c["script"], c["path"] = t[:k], t[k:]
+        batch.append(c)
+    return batch
+
+
+def run_stateful_oracle(ctx):
+    rng = ctx.sub_rng("oracle-stateful")
+    n = 0
+    for _ in range(ctx.scale(2500, 40000)):
+        case = gen_history(rng, maxops=14)
+        record(ctx, guarded(oracle_history)(case), case, "history")
+        n += 1
+    # deterministic histories for the input classes the seeded mutants lived in: default-port elision across a
+    # scheme change, pops of non-ASCII segments, relative_url on a request with a query string
+    base = {"scheme": "http", "host": {"kind": "name", "name": "h", "port": "443"}, "server": ["s", "80"],
+            "script": "/s", "path": "/\xe9\u20ac/b//c", "qs": "q=1", "enc": "UTF-8", "history": True}
+    fixed = [
+        [["read", "host_url"], ["env", "wsgi.url_scheme", "https"], ["read", "host_url"], ["read", "url"],
+         ["env", "HTTP_HOST", "h:80"], ["read", "host_port"], ["env", "wsgi.url_scheme", "http"], ["read", "url"],
+         ["env", "HTTP_HOST", None], ["read", "domain"], ["env", "SERVER_PORT", "443"], ["read", "host_url"]],
+        [["read", "peek"], ["pop", None], ["read", "url"], ["pop", None], ["read", "path"], ["pop", None],
+         ["read", "peek"], ["pop", None], ["read", "path_qs"]],
+        [["read", ["rel", "x", False]], ["env", "QUERY_STRING", "a/b/c=1"], ["read", ["rel", "x", False]],
+         ["set", "path_info", "/p/q/"], ["read", ["rel", "../y", False]], ["read", ["rel", "z", True]]],
+        [["read", "path_info"], ["enc", "class", "latin-1"], ["read", "path_info"], ["read", "url"],
+         ["enc", "class", None], ["read", "url"], ["enc", "instance", "latin-1"], ["read", "path"],
+         ["enc", "environ", None], ["read", "path"]],
+    ]
+    for ops in fixed:
+        case = dict(base, ops=ops)
+        record(ctx, guarded(oracle_history)(case), case, "history")
+        n += 1
+    ctx.oracle_count("history", n, n)
+
+
+def run_orders_oracle(ctx):
+    """Runs FIRST, before anything else has touched webob in this process, so that a sequence that fails here
+    fails again when replayed in a fresh process."""
+    rng = ctx.sub_rng("oracle-orders")
+    m = 0
+    for _ in range(ctx.scale(250, 3000)):
+        batch = gen_related_batch(rng)
+        idx = list(range(len(batch)))
+        perms = [idx[::-1]]
+        for _ in range(2):
+            q = idx[:]
+            rng.shuffle(q)
+            perms.append(q)
+        case = {"batch": batch, "perms": perms}
+        record(ctx, guarded(oracle_orders)(case), case, "orders")
+        m += 1
+    ctx.oracle_count("orders", m, m)
+
+
 def replay(ctx, path):
     data = json.load(open(path))
     case = data["case"]
     res = None
     if isinstance(case, dict):
-        if "ops" in case and "scheme" in case:
+        if case.get("history"):
+            res = guarded(oracle_history)(case)
+        elif "batch" in case:
+            res = guarded(oracle_orders)(case)
+        elif "from_history" in case:
+            res = guarded(oracle_history)(case["from_history"])
+        elif "ops" in case and "scheme" in case:
             res = guarded(oracle_pop)(case)
         elif "other" in case:
             res = guarded(oracle_rel)(case)
